@@ -1037,9 +1037,10 @@ end
 def errorsInto (es : List FrontErr) : Res CompileErr Unit :=
   if es.isEmpty then .panic .emptyErrors else .err (.frontend es)
 
+/-- Embedding of the steps that report errors as data (they never use `err`). -/
 def FRes.lift {α : Type} : FRes α → Res CompileErr α
   | .ok a => .ok a
-  | .err _ => .panic .emptyErrors
+  | .err _ => .err (.frontend [])
   | .panic s => .panic s
 
 /-- `make_ir_for_query` followed by the `IndexedQuery` conversion of `frontend::parse`. -/
